@@ -1057,7 +1057,14 @@ impl<Front: SocketHandler> ConnectionH1<Front> {
                 // keep alive should probably be used only if the http context is fully reset
                 // in case end_stream occurs due to an error the connection state is probably
                 // unrecoverable and should be terminated
-                if stream_context.keep_alive_backend && stream.back.is_terminated() {
+                // (an interim 100 / 103 still in the response buffer is marked
+                // Terminated by the parser, but the backend still owes the final
+                // response on this connection: it must not be parked for reuse)
+                let interim = matches!(
+                    stream.back.detached.status_line,
+                    kawa::StatusLine::Response { code, .. } if (100..200).contains(&code)
+                );
+                if stream_context.keep_alive_backend && stream.back.is_terminated() && !interim {
                     *status = BackendStatus::KeepAlive;
                 } else {
                     self.force_disconnect();
